@@ -14,19 +14,18 @@ MODELLED = ["obsfcst", "qq", "scatter", "cond", "freq", "hist", "sort", "margina
 ORACLE_ONLY = ["droc", "droc0", "murphy", "economicvalue", "igncontrib", "timeseries", "meteo", "against", "change"]
 UNMODELLED = ["fss", "autocorr", "autocov", "rank", "impact", "mapimpact", "map", "maprank"]
 THEOREMS = {"Proofs.C16": ["VerifModel.C16." + t for t in [
-    "C16_partition_ho", "C16_partition_oc", "C16_partition_hist", "C16_bins_partition_ho_partial", "C16_bins_ho_outside",
-    "C16_bins_partition_reliability_partial", "C16_bins_partition_invreliability_partial",
-    "C16_bins_partition_igncontrib_partial", "C16_bins_partition_scatter_partial", "C16_bins_partition_utilbin_partial",
-    "C16_bins_partition_discrimination_partial", "C16_bins_partition_bsdecomp", "C16_bins_partition_oc_partial",
-    "C16_bins_partition_spreadskill_partial", "C16_bins_partition_pithist", "C16_bins_partition_hist",
-    "C16_reliability_p1_in_no_bin", "C16_tenths_p1_in_no_bin", "C16_reliability_counts_lose_p1",
-    "C16_spreadskill_first_in_no_bin", "C16_counts_total_ho_partial", "C16_counts_total_reliability_partial",
-    "C16_counts_total_oc_partial", "C16_counts_total_pithist", "C16_series_order", "C16_series_order_groups",
+    "C16_partition_ho", "C16_partition_oc", "C16_partition_hist", "C16_partition_ocf", "C16_bins_partition_last",
+    "C16_bins_last_outside", "C16_bins_partition_reliability", "C16_bins_partition_invreliability",
+    "C16_bins_partition_igncontrib", "C16_bins_partition_scatter", "C16_bins_partition_utilbin",
+    "C16_bins_partition_discrimination", "C16_bins_partition_bsdecomp", "C16_bins_partition_first",
+    "C16_bins_partition_spreadskill", "C16_bins_partition_pithist", "C16_bins_partition_hist",
+    "C16_counts_total_last", "C16_counts_total_reliability", "C16_counts_total_first", "C16_counts_total_pithist",
+    "C16_series_order", "C16_series_order_groups",
     "C16_series_labels", "C16_def_qq", "C16_def_sort", "C16_def_obsfcst", "C16_obsfcst_layout", "C16_def_marginal",
     "C16_def_reliability", "C16_relCases", "C16_invrelCases", "C16_def_invreliability", "C16_def_spreadskill",
     "C16_def_discrimination", "C16_def_roc_point", "C16_def_roc", "C16_roc_endpoints", "C16_def_pithist",
-    "C16_pithist_bar_position_witness", "C16_def_hist", "C16_def_freq", "C16_def_cond", "C16_def_performance",
-    "C16_def_error_partial", "C16_error_sign_witness", "C16_def_standard", "C16_def_bsdecomp", "C16_bsCases",
+    "C16_pithist_bar_position", "C16_def_hist", "C16_def_freq", "C16_def_cond", "C16_def_performance",
+    "C16_def_error", "C16_def_standard", "C16_def_bsdecomp", "C16_bsCases",
     "C16_def_taylor"]]}
 TRUSTED_BASE = [
     "Lean 4.33 kernel; axioms propext, Classical.choice, Quot.sound only",
@@ -57,8 +56,8 @@ ASSUMPTIONS = [
     "NOT covered at all: " + ", ".join(UNMODELLED) + "; -x for taylor/performance/bsdecomp/qq/scatter only leadtime/location; "
     "-agg other than mean; -acc; -hist/-sort only for obs and fcst; obsfcst/standard with -x none (bar graph); meteo only the lines",
     "discrimination bar x-positions are layout (checked: bar centre inside its bin, default edges only); with one input the "
-    "'observed' bar of the first bin starts 0.01 left of 0 and with non-uniform -q edges bars leave their bins (cosmetic, same "
-    "cause as pithist-bar-position: mpl.bar align='center')",
+    "'observed' bar of the first bin starts 0.01 left of 0 and with non-uniform -q edges bars leave their bins (cosmetic: "
+    "mpl.bar align='center')",
 ]
 RULE = ("diag.artists: for each of 28 diagrams random datasets (deterministic / probabilistic with p<t>, q<level>, pit / "
         "ensemble e<k>; 1-3 inputs; 2-5 times x 2-3 lead times x 1-4 locations; values on a half-integer grid, probabilities "
@@ -69,13 +68,14 @@ RULE = ("diag.artists: for each of 28 diagrams random datasets (deterministic / 
         "holds at least one finite data point")
 EXHAUSTIVE = {"quick": False, "thorough": False}
 EXHAUSTIVE_NOTE = "random datasets; the partition / count / order theorems are unbounded"
-LEVEL_TEXT = ("Lean theorems: for the bin convention each diagram actually uses, every value of the binned range lies in exactly "
-              "one bin (full for PitHist, BsDecomp, Hist/Freq/Cond; '_partial' = except the end value of the range for "
-              "Reliability, InvReliability, Discrimination, IgnContrib, Scatter, util.bin, SpreadSkill, with kernel-checked "
-              "witnesses of the lost case) and the bin counts sum to the cases in range; one series (group) per input in input "
+LEVEL_TEXT = ("Lean theorems: for the bin convention each diagram actually uses, every value of the binned range "
+              "[first edge, last edge] lies in exactly one bin (full statements: PitHist, Reliability, InvReliability, "
+              "Discrimination, IgnContrib, Scatter, util.bin — half-open bins, the last one closed; SpreadSkill — bins "
+              "(lo, hi], the first one closed; BsDecomp; Hist/Freq/Cond) and the bin counts sum to the cases in range; PitHist "
+              "bars span their bins; one series (group) per input in input "
               "order; the modelled series of 19 diagrams equal their defining statistics (reliability, invreliability, "
               "discrimination, roc incl. end points, qq, sort, obsfcst, marginal, hist, freq, cond, pithist heights, "
-              "spreadskill, bsdecomp, performance, taylor, error up to the sign of the bias, standard mae/bias/rmse). The "
+              "spreadskill, bsdecomp, performance, taylor, error incl. the sign of the bias, standard mae/bias/rmse). The "
               "model is tied to /repo by reading back the artists of the live figure; 9 further diagrams are covered by the "
               "implementation-only oracle; fss, autocorr/autocov, rank, impact, mapimpact, maps are not covered.")
 TECHNIQUE = "Lean 4 proof over a model of each diagram's series; differential correspondence on the live figure's artists"
@@ -437,7 +437,7 @@ def judge(op, impl_out, spec_out):
     bad = None
     for g, w in zip(got, want):
         atol = 1e-6 if name in ("taylor", "error") else 1e-9       # sin(arccos r) near r = 1 is ill-conditioned
-        rtol = 1e-6 if ds.members() else 1e-7                      # ensemble-derived probabilities are float32
+        rtol = 1e-6       # probabilities are float32 in the code (stored cdf columns and ensemble-derived alike): eps 6e-8
         okx = True if w[3] is None else _vec_close(g[3], w[3], rtol, atol)
         oky = _vec_close(g[4], w[4], rtol, atol)
         okw = True if (len(w) < 6 or w[5] is None) else (g[5] is not None and _vec_close(g[5], w[5], 1e-7, 1e-9))
